@@ -121,6 +121,8 @@ def gen_receiver(rng):
         r = rng.random()
         if r < 0.10: fam, o = 'dominant-path', sl.dominant_path(rng, rng.random() < 0.5)
         elif r < 0.18: fam, o = 'peaked-cubic', sl.peaked_cubic(rng)
+        elif r < 0.24: fam, o = 'teardrop', sl.teardrop(rng)
+        elif r < 0.28: fam, o = 'teardrop-path', sl.teardrop_path(rng)
         else: fam, o, _ = sl.receiver(rng)
         L = o.length
         if L == L and MIN_LEN <= L <= 700: return fam, o
@@ -280,7 +282,7 @@ def search(ctx):
     fails, seen, dist, samples, measured, ev = [], set(), {}, [], {}, 0
     fixed = [('rect-4x4', Rectangle(4, 4)), ('rect-16x16', Rectangle(16, 16)), ('rect-64x64', Rectangle(64, 64)), ('int-line-16', Line(P(0, 0), P(16, 0))),
              ('int-line-256', Line(P(0, 0), P(0, 256))), ('rect-3x2', Rectangle(3, 2))]
-    todo = fixed + [gen_receiver(rng) for _ in range(ctx.n(45, 900))]
+    todo = fixed + [('teardrop', sl.teardrop(rng)) for _ in range(2)] + [('teardrop-path', sl.teardrop_path(rng)) for _ in range(2)] + [gen_receiver(rng) for _ in range(ctx.n(45, 900))]
     # exhaustive over small integer lengths: every staircase split of total 10..40 into <= 2 lines, every n <= length/4
     for tot in ([10, 12, 16, 20, 32] if ctx.tier != 'thorough' else range(10, 41)):
         for a in {1, tot // 2, tot - 1}:
